@@ -781,6 +781,24 @@ def apply_rewrites(text, rewrites):
             if n_ == 0:
                 raise Undecided("R20: no `let _timer = STAT_..;`")
             text = ed_.apply()
+        elif rw[0] == "FIELDPARAM":   # R21: a function that uses its parameter `x` only through the field `x.f` is verified over that field:
+            # every `x . f` (possibly split over lines) becomes `f`; any other use of `x` in the body makes the unit undecided.  The signature is
+            # changed by the accompanying sig_subst (`x: &mut S` -> `f: &mut F`).
+            x_, f_ = rw[1], rw[2]
+            toks_ = tokenize(text)
+            bo_ = _body_open_index(toks_)
+            ed_ = Edit(text)
+            n_ = 0
+            for k_, t_ in enumerate(toks_):
+                if k_ > bo_ and t_.kind == "ident" and t_.text == x_ and toks_[k_ - 1].text != ".":
+                    if toks_[k_ + 1].text == "." and toks_[k_ + 2].text == f_:
+                        ed_.replace(t_.start, toks_[k_ + 2].end, f_)
+                        n_ += 1
+                    else:
+                        raise Undecided(f"R21: `{x_}` is used other than as `{x_}.{f_}`")
+            if n_ == 0:
+                raise Undecided(f"R21: no `{x_}.{f_}`")
+            text = ed_.apply()
         elif rw[0] == "ROOT":
             text = rewrite_ROOT(text, rw[1], rw[2], rw[3], rw[4] if len(rw) > 4 else True)
         elif rw[0] == "ANF":
